@@ -564,6 +564,22 @@ def h_deep(e, kind, repl, ib, bb, ways, ops, props):
             e.claim("canary:%s:deep" % P, cond("==", cs.accesses, -1))
     if "C03" in props:
         e.claim("canary:C03:deep", cond("==", cs.accesses, -1))
+    if "C12" in props:
+        qb = e.int("qb", 0, 2**32 - 1)
+        if kind == "wt":
+            e.claim_eq("C12:deep-wt-backing-current", store.abstract(qb), flat.abstract(qb))
+            for s_ in range(g.sets):
+                for w in range(g.ways):
+                    b = A[s_]["ways"][w]
+                    if b["valid"] is False and len(b["words"]) < g.words:
+                        continue  # never-filled way
+                    for j in range(g.words):
+                        e.claim("C12:deep-wt-resident-block-equals-backing-s%dw%d_%d" % (s_, w, j), lor(lnot(b["valid"]), cond("==", b["words"][j], backing_word(store, b["base"], j))))
+        else:
+            e.claim("C12:deep-wb-backing-differs-only-where-resident", lor(cond("==", store.abstract(qb), flat.abstract(qb)), is_resident(A, g, qb)))
+            # nothing written was lost: the logical contents (resident block, else backing) are the flat ones
+            e.claim_eq("C12:deep-wb-no-written-value-lost", logical_byte(A, g, store, qb), flat.abstract(qb))
+        e.claim("canary:C12:deep", cond("!=", store.abstract(qb), store.abstract(qb)))
 
 
 def deep_jobs(tier, props, module):
